@@ -66,10 +66,41 @@ def scenario_stopped_waiter(tp):
     return prog, [drv]
 
 
+def scenario_deep_embed(tp):
+    """Directed template: a routine played on a clock embeds a routine that
+    embeds a routine (...) whose innermost one waits on a Condition or reads
+    a FlowVar: however deep, it is the played routine that is parked and
+    resumed."""
+    depth = 3 + tp.draw(2)
+    clock = tp.choice(['sys', 't0'])
+    routines = [{'clock': 'sys', 'quant': None, 'seed': None,
+                 'body': [['spawn', 1], ['wait', 4.0], ['rec']]}]
+    for i in range(1, depth + 1):
+        if i < depth:
+            body = [['rec'], ['embed', i + 1], ['rec'], ['wait', 0.25],
+                    ['rec']]
+        else:
+            body = [['rec'], tp.choice([['cwait', 0], ['fget', 0]]), ['rec'],
+                    ['wait', 0.125], ['rec']]
+        routines.append({'clock': clock, 'quant': 0 if clock == 't0' else None,
+                         'seed': None, 'body': body})
+    prog = {'t0': rprog.T0, 'clocks': [{'tempo': tp.choice([1, 2]),
+                                        'beats': 0}],
+            'routines': routines}
+    drv = [['sleep', 1.0], ['cset', 0, True], ['csignal', 0],
+           ['fset', 0, 7], ['sleep', 1.0], ['csignal', 0]]
+    return prog, [drv]
+
+
 def gen_case(tp, tier):
     kind = tp.choice(['seq', 'seq', 'sync', 'ctl'])
     if kind == 'seq':
         return gen_seq(tp, tier)
+    if kind == 'sync' and tp.draw(8) == 0:
+        prog, actors = scenario_deep_embed(tp)
+        kn = C.gen_knobs(tp, fault_free_pm=150, allow_big_lat=False)
+        return {'kind': 'sync', 'prog': prog, 'actors': actors, 'knobs': kn,
+                'scenario': 'deep-embed'}
     if kind == 'sync' and tp.draw(8) == 0:
         prog, actors = scenario_stopped_waiter(tp)
         # (bounded lateness: the driver's steps must stay ordered with the
